@@ -22,7 +22,7 @@ Dot   == {"absent", "empty", "cop", "lic", "both"}
 Prec  == {"closest", "aggregate", "override"}
 Inf   == {"none", "cop", "lic", "both"}
 Table1 == [prec : Prec, info : Inf, glob : {"all", "exact"}]
-Table2 == [prec : Prec, info : Inf, glob : {"all", "nomatch"}]
+Table2 == [prec : Prec, info : Inf, glob : {"all", "exact", "nomatch"}]     \* (a literal path and a glob may meet in one file)
 LevelOpts == {<<>>} \cup {<<t>> : t \in Table1}
                \cup (IF MaxTables >= 2 THEN {<<t, u>> : t \in Table2, u \in Table2} ELSE {})
 
